@@ -1,6 +1,1759 @@
-//! Property C03: correspondence and oracle (stub: nothing built yet).
-use crate::report::Report;
+//! Property C03: retain_lines with no rules reproduces the source byte for byte.
+//!
+//! (1) state-machine correspondence: writer traces of the real `TokenBasedLuaGenerator` (hook
+//!     `verif hook: token-based generator writer trace`) are replayed in the Lean model
+//!     (`C03.run`), output / line counter / commenting flag / inserted-byte counters must agree;
+//!     sources: random token soups written directly through the generator, and parsed programs;
+//!     plus `should_break_with_space` (exhaustive over ASCII pairs) and `is_single_line_comment`.
+//! (2) hypothesis check on every empty-rule trace: it must be a *token tiling* of the source
+//!     (this tests `ast_converter` + the `*_with_tokens` writers).
+//! (3) oracle: trivia-rich generated sources through `darklua_core::process` with `{rules: []}`
+//!     must come out bytewise identical when inside H3 (classified by the Lean driver).
+use crate::model::{hex, unhex, Model};
+use crate::report::{known_findings, Report, Violation};
+use crate::rng::Rng;
+use darklua_core::generator::{LuaGenerator, TokenBasedLuaGenerator};
+use darklua_core::nodes::{
+    Block, BlockTokens, Expression, Identifier, Position, ReturnStatement, ReturnTokens, Token,
+    TriviaKind,
+};
+use darklua_core::verif_hooks::{should_break_with_space, trace_start, trace_take, TraceOp};
+use darklua_core::{Configuration, Options, Resources};
+use serde_json::{json, Value};
 
-pub fn run(report: &mut Report, _replay: Option<&str>) {
-    report.notes.push("C03: no harness yet".to_owned());
+// ------------------------------------------------------------------------------------------
+// per-thread accumulator (folded into the Report on the main thread)
+// ------------------------------------------------------------------------------------------
+
+#[derive(Default)]
+pub struct Acc {
+    pub violations: Vec<Violation>,
+    pub hists: std::collections::BTreeMap<(String, String), u64>,
+    pub cases: Vec<Option<u64>>,
+    pub counts: Vec<(String, u64)>,
+    pub samples: Vec<Value>,
+    pub notes: Vec<String>,
+}
+
+impl Acc {
+    pub fn violation(&mut self, v: Violation) {
+        if self.violations.len() < 20 {
+            self.violations.push(v);
+        }
+    }
+    pub fn hist(&mut self, name: &str, bucket: &str) {
+        *self.hists.entry((name.to_owned(), bucket.to_owned())).or_default() += 1;
+    }
+    pub fn case<K: std::hash::Hash>(&mut self, key: Option<K>) {
+        self.cases.push(key.map(|k| crate::report::hash_of(&k)));
+    }
+    pub fn count(&mut self, name: &str, n: u64) {
+        self.counts.push((name.to_owned(), n));
+    }
+    pub fn sample(&mut self, v: Value) {
+        if self.samples.len() < 3 {
+            self.samples.push(v);
+        }
+    }
+    pub fn flush(self, report: &mut Report) {
+        for v in self.violations {
+            report.violation(v);
+        }
+        for ((name, bucket), n) in self.hists {
+            *report.histograms.entry(name).or_default().entry(bucket).or_default() += n;
+        }
+        for c in self.cases {
+            report.case(c);
+        }
+        for (name, n) in self.counts {
+            report.count(&name, n);
+        }
+        for s in self.samples {
+            report.sample(s);
+        }
+        report.notes.extend(self.notes);
+    }
+}
+
+// ------------------------------------------------------------------------------------------
+// real code
+// ------------------------------------------------------------------------------------------
+
+/// Run the real pipeline (`darklua_core::process`) on one in-memory file with a json5
+/// configuration; returns the output text and the writer trace of the token-based generator.
+pub fn real_process(code: &str, config_json5: &str) -> Result<(String, Vec<TraceOp>), String> {
+    let resources = Resources::from_memory();
+    resources
+        .write("src/main.lua", code)
+        .map_err(|e| format!("{:?}", e))?;
+    let config: Configuration = json5::from_str(config_json5).map_err(|e| e.to_string())?;
+    trace_start();
+    let result = std::panic::catch_unwind(std::panic::AssertUnwindSafe(|| {
+        darklua_core::process(
+            &resources,
+            Options::new("src/main.lua")
+                .with_output("out/main.lua")
+                .with_configuration(config),
+        )
+    }));
+    let trace = trace_take();
+    match result {
+        Err(_) => Err("panic".to_owned()),
+        Ok(Err(e)) => Err(format!("error: {}", e)),
+        Ok(Ok(tree)) => {
+            let errors = tree.collect_errors();
+            if !errors.is_empty() {
+                return Err(format!(
+                    "errors: {}",
+                    errors
+                        .iter()
+                        .map(|e| e.to_string())
+                        .collect::<Vec<_>>()
+                        .join("; ")
+                ));
+            }
+            let out = resources
+                .get("out/main.lua")
+                .map_err(|e| format!("{:?}", e))?;
+            Ok((out, trace))
+        }
+    }
+}
+
+/// What the trace says, in the item encoding of `C03/Driver.lean`.
+#[derive(Debug, Clone, Default)]
+pub struct Encoded {
+    pub items: Vec<String>,
+    pub pads: u64,
+    pub uncomments: u64,
+    pub spaces: u64,
+    /// output rebuilt from the low-level events only (push_str, pad, space, uncomment)
+    pub low_level_out: String,
+    pub final_line: Option<i64>,
+    pub final_commenting: Option<bool>,
+    pub tokens: u64,
+    pub symbols: u64,
+    pub raw: u64,
+    pub trivia: u64,
+}
+
+pub fn encode_trace(trace: &[TraceOp]) -> Result<Encoded, String> {
+    let mut e = Encoded::default();
+    let mut expect_push: Option<String> = None;
+    let mut in_token = false;
+    for t in trace {
+        match t.op {
+            "token_begin" => {
+                if in_token {
+                    return Err("nested token_begin".into());
+                }
+                in_token = true;
+                expect_push = None;
+                e.items.push(format!("B{}", t.detail));
+                e.tokens += 1;
+            }
+            "token_content" => {
+                let line = if t.detail < 0 { "-".to_owned() } else { t.detail.to_string() };
+                e.items.push(format!("K{}:{}", line, hex(t.text.as_bytes())));
+                expect_push = if t.text.is_empty() { None } else { Some(t.text.clone()) };
+            }
+            "token_trailing" => {}
+            "token_end" => {
+                if !in_token {
+                    return Err("token_end without begin".into());
+                }
+                in_token = false;
+                expect_push = None;
+                e.items.push("E".to_owned());
+            }
+            "trivia" => {
+                e.items.push(format!(
+                    "T{}:{}",
+                    if t.detail == 0 { "c" } else { "w" },
+                    hex(t.text.as_bytes())
+                ));
+                e.trivia += 1;
+                expect_push = Some(t.text.clone());
+            }
+            "symbol" => {
+                if in_token {
+                    return Err("symbol inside token".into());
+                }
+                e.items.push(format!("S{}:{}", t.detail, hex(t.text.as_bytes())));
+                e.symbols += 1;
+                expect_push = Some(t.text.clone());
+            }
+            "push_str" => {
+                e.low_level_out.push_str(&t.text);
+                match expect_push.take() {
+                    Some(x) if x == t.text => {}
+                    Some(x) => return Err(format!("push_str {:?} after primitive with {:?}", t.text, x)),
+                    None => {
+                        if in_token {
+                            return Err("raw push_str inside token".into());
+                        }
+                        e.items.push(format!("P:{}", hex(t.text.as_bytes())));
+                        e.raw += 1;
+                    }
+                }
+            }
+            "pad" => {
+                e.pads += 1;
+                e.low_level_out.push('\n');
+            }
+            "space" => {
+                e.spaces += 1;
+                e.low_level_out.push(' ');
+            }
+            "raw_space" => {
+                if in_token {
+                    return Err("raw_space inside token".into());
+                }
+                e.spaces += 1;
+                e.low_level_out.push(' ');
+                e.items.push("R".to_owned());
+                e.raw += 1;
+            }
+            "uncomment" => {
+                e.uncomments += 1;
+                e.low_level_out.push('\n');
+            }
+            "into_string" => {
+                e.final_line = Some(t.detail);
+                e.final_commenting = Some(t.text == "1");
+            }
+            // events of the other generators' hooks, if any, are not ours
+            _ => {}
+        }
+    }
+    if in_token {
+        return Err("unterminated token".into());
+    }
+    Ok(e)
+}
+
+#[derive(Debug, Clone, PartialEq, Eq)]
+pub struct ModelRun {
+    pub out: Vec<u8>,
+    pub line: i64,
+    pub commenting: bool,
+    pub pads: u64,
+    pub uncomments: u64,
+    pub spaces: u64,
+}
+
+pub fn parse_model_run(answer: &str) -> Result<ModelRun, String> {
+    let p: Vec<&str> = answer.split(' ').collect();
+    if p.len() != 7 || p[0] != "ok" {
+        return Err(format!("model answered {:?}", answer));
+    }
+    Ok(ModelRun {
+        out: unhex(p[1]).ok_or("bad hex")?,
+        line: p[2].parse().map_err(|_| "bad line")?,
+        commenting: p[3] == "1",
+        pads: p[4].parse().map_err(|_| "bad pads")?,
+        uncomments: p[5].parse().map_err(|_| "bad uncomments")?,
+        spaces: p[6].parse().map_err(|_| "bad spaces")?,
+    })
+}
+
+/// Compare one real run with the model's replay of its trace. `None` = agreement.
+pub fn compare_run(real_out: &str, enc: &Encoded, m: &ModelRun) -> Option<String> {
+    if enc.low_level_out != real_out {
+        return Some(format!(
+            "the trace is incomplete: low-level events rebuild {:?}, the generator returned {:?}",
+            enc.low_level_out, real_out
+        ));
+    }
+    if m.out != real_out.as_bytes() {
+        return Some(format!(
+            "output differs: model {:?}, real {:?}",
+            String::from_utf8_lossy(&m.out),
+            real_out
+        ));
+    }
+    if let Some(l) = enc.final_line {
+        if l != m.line {
+            return Some(format!("current_line differs: model {}, real {}", m.line, l));
+        }
+    }
+    if let Some(c) = enc.final_commenting {
+        if c != m.commenting {
+            return Some(format!("currently_commenting differs: model {}, real {}", m.commenting, c));
+        }
+    }
+    if (enc.pads, enc.uncomments, enc.spaces) != (m.pads, m.uncomments, m.spaces) {
+        return Some(format!(
+            "inserted bytes differ (pads, uncomments, spaces): model {:?}, real {:?}",
+            (m.pads, m.uncomments, m.spaces),
+            (enc.pads, enc.uncomments, enc.spaces)
+        ));
+    }
+    None
+}
+
+// ------------------------------------------------------------------------------------------
+// token soup: arbitrary primitive sequences through the real generator
+// ------------------------------------------------------------------------------------------
+
+#[derive(Debug, Clone)]
+pub struct SoupTrivia {
+    pub comment: bool,
+    pub text: String,
+}
+
+#[derive(Debug, Clone)]
+pub struct SoupToken {
+    /// `None`: the identifier has no token and is written by `write_symbol(name)`
+    pub token: bool,
+    pub content: String,
+    pub line: Option<usize>,
+    /// content comes from the original code through a `LineNumberReference`
+    pub by_reference: bool,
+    pub leading: Vec<SoupTrivia>,
+    pub trailing: Vec<SoupTrivia>,
+}
+
+const SOUP_TEXTS: &[&str] = &[
+    "a", "b1", "_", "1", "12", ".5", "..", ".", "-", "--", "[", "]", "[[", "]]", "=", "==", ">", ">=",
+    "(", ")", "{", "}", ",", ";", "x\ny", "\"s\"", "'t'", "é", "日本", "[[l\nm]]", "...", "0x1F",
+    "", "z9", "A", "Z_", "9", "#", "::", "<", "\n", "a\r\nb",
+];
+const SOUP_WS: &[&str] = &[" ", "\n", "\t", "  ", "\r\n", "\n\n", " \n ", "", "\r", "\n\t"];
+const SOUP_COMMENTS: &[&str] = &[
+    "--c", "-- c", "--", "--[[m]]", "--[[m\nn]]", "--[==[x]==]", "--[=[\n]=]", "--[a[", "--[ab[", "--[abc[",
+    "--[abcd[", "--[=x[", "--[é[", "--[éé=[", "--[", "--[=", "--[==", "--[=[", "--[[", "--é", "--[===[ ]===]",
+    "--[==é[", "--[=é=[x", "--[é=[", "--[日[", "--[日=[", "---[[x]]", "--[[]]", "--[ [", "--[=[]=]x",
+];
+
+fn soup_trivia(rng: &mut Rng) -> SoupTrivia {
+    // the kind and the text are chosen independently: rules may attach anything
+    let comment = rng.chance(1, 2);
+    let text = if rng.chance(4, 5) == comment {
+        (*rng.pick(SOUP_COMMENTS)).to_owned()
+    } else {
+        (*rng.pick(SOUP_WS)).to_owned()
+    };
+    SoupTrivia { comment, text }
+}
+
+pub fn gen_soup(rng: &mut Rng) -> Vec<SoupToken> {
+    let n = 1 + rng.below(8);
+    let mut line = 1usize;
+    (0..n)
+        .map(|i| {
+            let is_return = i == 0;
+            let token = is_return || !rng.chance(1, 5);
+            let mut content = (*rng.pick(SOUP_TEXTS)).to_owned();
+            if !token && content.is_empty() {
+                content = "s".to_owned();
+            }
+            let line_opt = if token && rng.chance(2, 3) {
+                // mostly increasing, sometimes behind or far ahead
+                match rng.below(6) {
+                    0 => line = line.saturating_sub(1).max(1),
+                    1 => line += 1 + rng.below(3),
+                    2 => line += 1,
+                    _ => {}
+                }
+                Some(line)
+            } else {
+                None
+            };
+            let nl = rng.below(3);
+            let nt = rng.below(3);
+            SoupToken {
+                token,
+                content,
+                line: line_opt,
+                by_reference: line_opt.is_some() && rng.chance(1, 2),
+                leading: if token { (0..nl).map(|_| soup_trivia(rng)).collect() } else { vec![] },
+                trailing: if token { (0..nt).map(|_| soup_trivia(rng)).collect() } else { vec![] },
+            }
+        })
+        .collect()
+}
+
+/// Write `return <id>, <id>, …` whose tokens are the soup, through the real generator.
+/// Odd positions of the soup are the comma tokens.
+pub fn run_soup(soup: &[SoupToken]) -> Result<(String, Vec<TraceOp>), String> {
+    // original code: the concatenation of all by-reference texts
+    let mut code = String::new();
+    let mut make = |t: &SoupToken| -> Token {
+        let mut token = match (t.line, t.by_reference) {
+            (Some(l), true) => {
+                let start = code.len();
+                code.push_str(&t.content);
+                Token::new_with_line(start, code.len(), l)
+            }
+            (Some(l), false) => Token::from_position(Position::LineNumber {
+                content: t.content.clone().into(),
+                line_number: l,
+            }),
+            (None, _) => Token::from_content(t.content.clone()),
+        };
+        for v in &t.leading {
+            let kind = if v.comment { TriviaKind::Comment } else { TriviaKind::Whitespace };
+            token.push_leading_trivia(kind.with_content(v.text.clone()));
+        }
+        for v in &t.trailing {
+            let kind = if v.comment { TriviaKind::Comment } else { TriviaKind::Whitespace };
+            token.push_trailing_trivia(kind.with_content(v.text.clone()));
+        }
+        token
+    };
+    let return_token = make(&soup[0]);
+    let mut expressions: Vec<Expression> = Vec::new();
+    let mut commas: Vec<Token> = Vec::new();
+    let mut final_token = None;
+    let rest = &soup[1..];
+    let mut i = 0;
+    while i < rest.len() {
+        let t = &rest[i];
+        // identifier position
+        let mut identifier = Identifier::new(t.content.clone());
+        if t.token {
+            identifier = identifier.with_token(make(t));
+        }
+        expressions.push(identifier.into());
+        i += 1;
+        if i < rest.len() {
+            if i + 1 < rest.len() {
+                // comma position (a soup entry without token leaves the comma to write_symbol(","))
+                if rest[i].token {
+                    commas.push(make(&rest[i]));
+                    i += 1;
+                } else {
+                    i += 1;
+                    // no comma token from here on: `commas.get(i)` must fail for the rest too
+                    // (tokens.commas is positional), so stop attaching commas
+                    while i < rest.len() {
+                        let t = &rest[i];
+                        let mut identifier = Identifier::new(t.content.clone());
+                        if t.token {
+                            identifier = identifier.with_token(make(t));
+                        }
+                        expressions.push(identifier.into());
+                        i += 1;
+                    }
+                }
+            } else {
+                // last entry: the block's final token
+                if rest[i].token {
+                    final_token = Some(make(&rest[i]));
+                }
+                i += 1;
+            }
+        }
+    }
+    let statement = ReturnStatement::new(expressions).with_tokens(ReturnTokens {
+        r#return: return_token,
+        commas,
+    });
+    let block = Block::default()
+        .with_last_statement(statement)
+        .with_tokens(BlockTokens {
+            semicolons: vec![],
+            last_semicolon: None,
+            final_token,
+        });
+    trace_start();
+    let result = std::panic::catch_unwind(std::panic::AssertUnwindSafe(|| {
+        let mut generator = TokenBasedLuaGenerator::new(&code);
+        generator.write_block(&block);
+        generator.into_string()
+    }));
+    let trace = trace_take();
+    result.map(|out| (out, trace)).map_err(|_| "panic".to_owned())
+}
+
+fn soup_json(soup: &[SoupToken]) -> Value {
+    Value::Array(
+        soup.iter()
+            .map(|t| {
+                json!({
+                    "token": t.token, "content": t.content, "line": t.line, "by_reference": t.by_reference,
+                    "leading": t.leading.iter().map(|v| json!([v.comment, v.text])).collect::<Vec<_>>(),
+                    "trailing": t.trailing.iter().map(|v| json!([v.comment, v.text])).collect::<Vec<_>>(),
+                })
+            })
+            .collect(),
+    )
+}
+
+fn soup_from_json(v: &Value) -> Option<Vec<SoupToken>> {
+    let triv = |x: &Value| -> Option<Vec<SoupTrivia>> {
+        x.as_array()?
+            .iter()
+            .map(|p| {
+                Some(SoupTrivia {
+                    comment: p.get(0)?.as_bool()?,
+                    text: p.get(1)?.as_str()?.to_owned(),
+                })
+            })
+            .collect()
+    };
+    v.as_array()?
+        .iter()
+        .map(|t| {
+            Some(SoupToken {
+                token: t["token"].as_bool()?,
+                content: t["content"].as_str()?.to_owned(),
+                line: t["line"].as_u64().map(|x| x as usize),
+                by_reference: t["by_reference"].as_bool()?,
+                leading: triv(&t["leading"])?,
+                trailing: triv(&t["trailing"])?,
+            })
+        })
+        .collect()
+}
+
+// ------------------------------------------------------------------------------------------
+// trivia-rich source generator
+// ------------------------------------------------------------------------------------------
+
+/// Grammar-driven generator of Lua/Luau programs as token streams.
+pub struct ProgGen {
+    pub rng: Rng,
+    pub toks: Vec<String>,
+    budget: i32,
+    /// C04: every literal / global / call is a unique marker
+    pub markers: bool,
+    next: u32,
+    /// allow Luau type annotations
+    pub typed: bool,
+    /// number of `;` written after a return statement (finding F25: the generator drops them)
+    pub last_semicolons: u32,
+}
+
+const BINOPS: &[&str] = &[
+    "+", "-", "*", "/", "//", "%", "^", "..", "==", "~=", "<", "<=", ">", ">=", "and", "or",
+];
+const NUMBERS: &[&str] = &[
+    "0", "1", "7", "42", "123456789", "1.5", ".5", "5.", "0.25", "1e10", "1E+5", "2e-3", "1.e3", ".5e1",
+    "0x1F", "0XaB", "0xff", "0b1010", "0B11", "1_000", "1_000_000.5", "0x_FF", "0b_1_0", "1__0", "9007199254740993",
+    "0xFFFFFFFFFFFFFFFF", "1e309", "3.14159", "00012", "1_", "0x0",
+];
+const STRINGS: &[&str] = &[
+    "\"\"", "''", "\"a\"", "'b'", "\"it's\"", "'say \"hi\"'", "\"\\n\\t\\\\\"", "'\\''", "\"\\\"\"", "\"\\065\\10\"",
+    "\"\\x41\\x7a\"", "\"\\u{48}\\u{1F600}\"", "\"a\\z\n   b\"", "\"line\\\ncont\"", "[[long]]", "[[\nfirst newline]]",
+    "[==[with ]] inside]==]", "[=[a\nb\nc]=]", "[[]]", "[===[]===]", "\"é日本🎉\"", "'tab\there'", "\"\\a\\b\\f\\v\\r\\0\"",
+    "[[ends with bracket] ]]", "\"--not a comment\"", "'[[not long]]'", "[[crlf\r\ninside]]",
+    "\"\\u{0}\"", "\"\\255\"",
+];
+const INTERP: &[&str] = &[
+    "`plain`", "``", "`a{1}b`", "`{x}`", "`{x}{y}`", "`\\{not\\}`", "`{ {1} }`", "`{\"s\"} and {'t'}`", "`é{ x }日`",
+    "`a\\`b`", "`{f(1, 2)}`", "`multi\\\nline`", "`{`nested {1}`}`", "`{ x --[[c]] }`", "`\\n\\t{x}\\u{41}`",
+];
+const NAMES: &[&str] = &["a", "b", "foo", "bar_1", "_", "_G", "self", "x9", "T", "é_not", "value", "i", "j", "k"];
+
+impl ProgGen {
+    pub fn new(rng: Rng, budget: i32) -> Self {
+        ProgGen { rng, toks: Vec::new(), budget, markers: false, next: 0, typed: false, last_semicolons: 0 }
+    }
+    fn t(&mut self, s: &str) {
+        self.toks.push(s.to_owned());
+        self.budget -= 1;
+    }
+    fn fresh(&mut self) -> u32 {
+        self.next += 1;
+        self.next
+    }
+    fn name(&mut self) {
+        if self.markers {
+            let k = self.fresh();
+            self.t(&format!("g{}", k));
+        } else {
+            let n = *self.rng.pick(NAMES);
+            // NAMES contains one non-ASCII candidate that Lua does not accept; replace it
+            let n = if n.is_ascii() { n } else { "e_not" };
+            self.t(n);
+        }
+    }
+    fn local_name(&mut self) {
+        if self.markers {
+            let k = self.fresh();
+            self.t(&format!("v{}", k));
+        } else {
+            self.name();
+        }
+    }
+    fn number(&mut self) {
+        if self.markers {
+            let k = self.fresh();
+            self.t(&format!("{}", 1_000_000 + k));
+        } else {
+            let n = *self.rng.pick(NUMBERS);
+            self.t(n);
+        }
+    }
+    fn string(&mut self) {
+        if self.markers {
+            let k = self.fresh();
+            let q = if self.rng.chance(1, 2) { '\'' } else { '"' };
+            self.t(&format!("{}s{}{}", q, k, q));
+        } else {
+            let s = *self.rng.pick(STRINGS);
+            self.t(s);
+        }
+    }
+    fn type_annotation(&mut self, depth: u32) {
+        match self.rng.below(if depth == 0 { 4 } else { 9 }) {
+            0 => self.t("number"),
+            1 => self.t("string"),
+            2 => self.t("any"),
+            3 => {
+                self.t("T");
+            }
+            4 => {
+                self.type_annotation(depth - 1);
+                self.t("?");
+            }
+            5 => {
+                self.t("{");
+                self.type_annotation(depth - 1);
+                self.t("}");
+            }
+            6 => {
+                self.t("{");
+                self.t("x");
+                self.t(":");
+                self.type_annotation(depth - 1);
+                self.t(",");
+                self.t("y");
+                self.t(":");
+                self.type_annotation(depth - 1);
+                self.t("}");
+            }
+            7 => {
+                self.t("(");
+                self.type_annotation(depth - 1);
+                self.t(")");
+                self.t("->");
+                self.type_annotation(depth - 1);
+            }
+            _ => {
+                self.type_annotation(depth - 1);
+                self.t("|");
+                self.type_annotation(depth - 1);
+            }
+        }
+    }
+    fn opt_type(&mut self) {
+        if self.typed && self.rng.chance(1, 2) {
+            self.t(":");
+            self.type_annotation(2);
+        }
+    }
+    fn atom(&mut self, vararg: bool) {
+        match self.rng.below(if self.markers { 12 } else { 14 }) {
+            0 => self.t("nil"),
+            1 => self.t("true"),
+            2 => self.t("false"),
+            3 | 4 | 5 => self.number(),
+            6 | 7 => self.string(),
+            8 | 9 | 10 => self.name(),
+            11 => {
+                if vararg {
+                    self.t("...")
+                } else {
+                    self.name()
+                }
+            }
+            12 => {
+                let s = *self.rng.pick(INTERP);
+                self.t(s);
+            }
+            _ => self.string(),
+        }
+    }
+    fn expr_list(&mut self, depth: u32, vararg: bool, min: usize, max: usize) {
+        let n = min + self.rng.below(max - min + 1);
+        for i in 0..n {
+            if i > 0 {
+                self.t(",");
+            }
+            self.expr(depth, vararg);
+        }
+    }
+    fn args(&mut self, depth: u32, vararg: bool) {
+        match self.rng.below(8) {
+            0 => self.string(),
+            1 => self.table(depth, vararg),
+            _ => {
+                self.t("(");
+                self.expr_list(depth, vararg, 0, 3);
+                self.t(")");
+            }
+        }
+    }
+    fn table(&mut self, depth: u32, vararg: bool) {
+        self.t("{");
+        let n = self.rng.below(4);
+        for i in 0..n {
+            match self.rng.below(3) {
+                0 => self.expr(depth, vararg),
+                1 => {
+                    self.local_name();
+                    self.t("=");
+                    self.expr(depth, vararg);
+                }
+                _ => {
+                    self.t("[");
+                    self.expr(depth, vararg);
+                    self.t("]");
+                    self.t("=");
+                    self.expr(depth, vararg);
+                }
+            }
+            if i + 1 < n || self.rng.chance(1, 3) {
+                let sep = if self.rng.chance(1, 3) { ";" } else { "," };
+                self.t(sep);
+            }
+        }
+        self.t("}");
+    }
+    /// prefix expression; `want`: 0 anything, 1 must end with a call, 2 must be assignable
+    fn prefix(&mut self, depth: u32, vararg: bool, want: u8) {
+        if want == 0 && depth > 0 && self.rng.chance(1, 6) {
+            self.t("(");
+            self.expr(depth - 1, vararg);
+            self.t(")");
+        } else if self.markers && want == 1 {
+            let k = self.fresh();
+            self.t(&format!("m{}", k));
+        } else {
+            self.name();
+        }
+        let n = self.rng.below(3);
+        for _ in 0..n {
+            let k = self.rng.below(4) as u8;
+            self.suffix(depth, vararg, k);
+        }
+        match want {
+            1 => {
+                let k = 2 + self.rng.below(2) as u8;
+                self.suffix(depth, vararg, k)
+            }
+            2 => {
+                if n > 0 || self.rng.chance(1, 2) {
+                    let k = self.rng.below(2) as u8;
+                    self.suffix(depth, vararg, k)
+                }
+            }
+            _ => {}
+        }
+    }
+    fn suffix(&mut self, depth: u32, vararg: bool, kind: u8) {
+        let d = depth.saturating_sub(1);
+        match kind {
+            0 => {
+                self.t(".");
+                self.local_name();
+            }
+            1 => {
+                self.t("[");
+                self.expr(d, vararg);
+                self.t("]");
+            }
+            2 => self.args(d, vararg),
+            _ => {
+                self.t(":");
+                self.local_name();
+                self.args(d, vararg);
+            }
+        }
+    }
+    fn function_body(&mut self, depth: u32) {
+        self.t("(");
+        let n = self.rng.below(3);
+        for i in 0..n {
+            if i > 0 {
+                self.t(",");
+            }
+            self.local_name();
+            self.opt_type();
+        }
+        let vararg = self.rng.chance(1, 3);
+        if vararg {
+            if n > 0 {
+                self.t(",");
+            }
+            self.t("...");
+        }
+        self.t(")");
+        if self.typed && self.rng.chance(1, 2) {
+            self.t(":");
+            self.type_annotation(2);
+        }
+        self.block(depth, false, vararg);
+        self.t("end");
+    }
+    pub fn expr(&mut self, depth: u32, vararg: bool) {
+        if depth == 0 || self.budget <= 0 {
+            return self.atom(vararg);
+        }
+        let d = depth - 1;
+        match self.rng.below(16) {
+            0..=3 => self.atom(vararg),
+            4 | 5 | 6 => {
+                self.expr(d, vararg);
+                let op = *self.rng.pick(BINOPS);
+                self.t(op);
+                self.expr(d, vararg);
+            }
+            7 => {
+                let op = *self.rng.pick(&["not", "-", "#"]);
+                self.t(op);
+                self.expr(d, vararg);
+            }
+            8 => {
+                self.t("(");
+                self.expr(d, vararg);
+                self.t(")");
+            }
+            9 | 10 => self.table(d, vararg),
+            11 => {
+                self.t("function");
+                self.function_body(d);
+            }
+            12 | 13 => self.prefix(d, vararg, 0),
+            14 => {
+                if self.markers && self.rng.chance(1, 3) {
+                    // interpolated string whose only content are marker expressions (one token)
+                    let saved = std::mem::take(&mut self.toks);
+                    self.prefix(d.min(1), vararg, 1);
+                    let inner = std::mem::replace(&mut self.toks, saved).join(" ");
+                    self.t(&format!("`{{{}}}`", inner));
+                    return;
+                }
+                self.t("if");
+                self.expr(d, vararg);
+                self.t("then");
+                self.expr(d, vararg);
+                if self.rng.chance(1, 3) {
+                    self.t("elseif");
+                    self.expr(d, vararg);
+                    self.t("then");
+                    self.expr(d, vararg);
+                }
+                self.t("else");
+                self.expr(d, vararg);
+            }
+            _ => self.prefix(d, vararg, 1),
+        }
+    }
+    pub fn block(&mut self, depth: u32, in_loop: bool, vararg: bool) {
+        let n = if depth == 0 { self.rng.below(2) } else { self.rng.below(4) };
+        for _ in 0..n {
+            if self.budget <= 0 {
+                break;
+            }
+            self.statement(depth, in_loop, vararg);
+            if self.rng.chance(1, 5) {
+                self.t(";");
+            }
+        }
+        match self.rng.below(if in_loop { 8 } else { 6 }) {
+            0 | 1 => {
+                self.t("return");
+                self.expr_list(depth.min(2), vararg, 0, 2);
+                if !self.markers && self.rng.chance(1, 12) {
+                    self.t(";");
+                    self.last_semicolons += 1;
+                }
+            }
+            6 => self.t("break"),
+            7 => self.t("continue"),
+            _ => {}
+        }
+    }
+    fn statement(&mut self, depth: u32, in_loop: bool, vararg: bool) {
+        let d = depth.saturating_sub(1);
+        let e = depth.min(2);
+        match self.rng.below(if depth == 0 { 4 } else { 14 }) {
+            0 => {
+                self.t("local");
+                let n = 1 + self.rng.below(3);
+                for i in 0..n {
+                    if i > 0 {
+                        self.t(",");
+                    }
+                    self.local_name();
+                    self.opt_type();
+                }
+                if self.rng.chance(3, 4) {
+                    self.t("=");
+                    self.expr_list(e, vararg, 1, 3);
+                }
+            }
+            1 => {
+                let n = 1 + self.rng.below(2);
+                for i in 0..n {
+                    if i > 0 {
+                        self.t(",");
+                    }
+                    self.prefix(e, vararg, 2);
+                }
+                self.t("=");
+                self.expr_list(e, vararg, 1, 3);
+            }
+            2 | 3 => self.prefix(e, vararg, 1),
+            4 => {
+                self.t("do");
+                self.block(d, in_loop, vararg);
+                self.t("end");
+            }
+            5 => {
+                self.t("while");
+                self.expr(e, vararg);
+                self.t("do");
+                self.block(d, true, vararg);
+                self.t("end");
+            }
+            6 => {
+                self.t("repeat");
+                self.block(d, true, vararg);
+                self.t("until");
+                self.expr(e, vararg);
+            }
+            7 => {
+                self.t("if");
+                self.expr(e, vararg);
+                self.t("then");
+                self.block(d, in_loop, vararg);
+                let n = self.rng.below(3);
+                for _ in 0..n {
+                    self.t("elseif");
+                    self.expr(e, vararg);
+                    self.t("then");
+                    self.block(d, in_loop, vararg);
+                }
+                if self.rng.chance(1, 2) {
+                    self.t("else");
+                    self.block(d, in_loop, vararg);
+                }
+                self.t("end");
+            }
+            8 => {
+                self.t("for");
+                self.local_name();
+                self.t("=");
+                self.expr(e, vararg);
+                self.t(",");
+                self.expr(e, vararg);
+                if self.rng.chance(1, 2) {
+                    self.t(",");
+                    self.expr(e, vararg);
+                }
+                self.t("do");
+                self.block(d, true, vararg);
+                self.t("end");
+            }
+            9 => {
+                self.t("for");
+                let n = 1 + self.rng.below(2);
+                for i in 0..n {
+                    if i > 0 {
+                        self.t(",");
+                    }
+                    self.local_name();
+                }
+                self.t("in");
+                self.expr_list(e, vararg, 1, 2);
+                self.t("do");
+                self.block(d, true, vararg);
+                self.t("end");
+            }
+            10 => {
+                self.t("function");
+                self.name();
+                let n = self.rng.below(3);
+                for _ in 0..n {
+                    self.t(".");
+                    self.local_name();
+                }
+                if self.rng.chance(1, 3) {
+                    self.t(":");
+                    self.local_name();
+                }
+                self.function_body(d);
+            }
+            11 => {
+                self.t("local");
+                self.t("function");
+                self.local_name();
+                self.function_body(d);
+            }
+            12 => {
+                self.prefix(e, vararg, 2);
+                let op = *self.rng.pick(&["+=", "-=", "*=", "/=", "//=", "%=", "^=", "..="]);
+                self.t(op);
+                self.expr(e, vararg);
+            }
+            _ => {
+                if self.typed {
+                    if self.rng.chance(1, 2) {
+                        self.t("export");
+                    }
+                    self.t("type");
+                    self.t("T");
+                    self.t("=");
+                    self.type_annotation(2);
+                } else {
+                    self.prefix(e, vararg, 1);
+                }
+            }
+        }
+    }
+}
+
+fn is_word(c: char) -> bool {
+    c.is_ascii_alphanumeric() || c == '_' || !c.is_ascii()
+}
+
+/// Two tokens that may not touch because they would lex differently.
+pub fn lexically_glued(a: &str, b: &str) -> bool {
+    let (x, y) = match (a.chars().last(), b.chars().next()) {
+        (Some(x), Some(y)) => (x, y),
+        _ => return false,
+    };
+    let a_is_number = a.chars().next().map(|c| c.is_ascii_digit()).unwrap_or(false)
+        || (a.starts_with('.') && a.len() > 1 && a.as_bytes()[1].is_ascii_digit());
+    (is_word(x) && is_word(y))
+        || (a_is_number && (y == '.' || is_word(y)))
+        || (x == '.' && y == '.')
+        || (x == '.' && y.is_ascii_digit() && a != "..")
+        || (a == "..." && y.is_ascii_digit())
+        || matches!(
+            (x, y),
+            ('-', '-') | ('[', '[') | ('[', '=') | ('=', '=') | ('<', '=') | ('>', '=') | ('~', '=')
+                | (':', ':') | ('/', '/') | ('<', '<') | ('>', '>') | ('-', '>') | ('/', '=') | ('.', '=')
+                | ('+', '=') | ('*', '=') | ('%', '=') | ('^', '=') | ('-', '=')
+        )
+        || (a == "{" && b == "{" )
+}
+
+pub struct Layout {
+    pub newline: &'static str,
+    /// per mille of token gaps that get a comment
+    pub comments: u32,
+    /// per mille of token gaps that get at least one line break
+    pub breaks: u32,
+    /// per mille of positions where an avoidable space-rule hit (F7 region) is left in place
+    pub f7: u32,
+}
+
+fn line_comment(rng: &mut Rng) -> String {
+    const C: &[&str] = &[
+        "--", "-- a comment", "--!strict", "---doc", "--[not long", "--[a[ quirk", "--[ab[", "--]]", "-- é日本",
+        "--\t tab", "--[=x[ y", "-- trailing spaces   ", "-- [[ not a block ]] more", "-- 'quote\"",
+    ];
+    (*rng.pick(C)).to_owned()
+}
+
+fn block_comment(rng: &mut Rng, nl: &str) -> String {
+    match rng.below(7) {
+        0 => "--[[c]]".to_owned(),
+        1 => format!("--[[ multi{}line ]]", nl),
+        2 => "--[==[ with ]] inside ]==]".to_owned(),
+        3 => format!("--[=[{}{}]=]", nl, nl),
+        4 => "--[[]]".to_owned(),
+        5 => "--[[ é日本 ]]".to_owned(),
+        _ => format!("--[[{}-- nested line comment{}]]", nl, nl),
+    }
+}
+
+/// Random trivia: whitespace and comments; `must_separate` forces a non-empty result.
+fn gap(rng: &mut Rng, layout: &Layout, must_separate: bool, prev_ends_minus: bool) -> String {
+    let nl = if layout.newline == "mixed" {
+        if rng.chance(1, 2) { "\n" } else { "\r\n" }
+    } else {
+        layout.newline
+    };
+    let mut s = String::new();
+    let n = match rng.below(10) {
+        0..=3 => 0,
+        4..=7 => 1,
+        8 => 2,
+        _ => 3,
+    };
+    for _ in 0..n {
+        let r = rng.below(1000) as u32;
+        if r < layout.comments {
+            if prev_ends_minus && s.is_empty() {
+                s.push(' ');
+            }
+            if rng.chance(1, 2) {
+                s.push_str(&line_comment(rng));
+                s.push_str(nl);
+            } else {
+                s.push_str(&block_comment(rng, nl));
+            }
+        } else if r < layout.comments + layout.breaks {
+            s.push_str(nl);
+            if rng.chance(1, 3) {
+                s.push_str(nl);
+            }
+            if rng.chance(1, 2) {
+                s.push_str(*rng.pick(&["  ", "\t", "    ", "\t\t", " "]));
+            }
+        } else {
+            s.push_str(*rng.pick(&[" ", "  ", "\t", " \t "]));
+        }
+    }
+    if must_separate && s.is_empty() {
+        s.push(' ');
+    }
+    s
+}
+
+/// Lay a token stream out as source text with random trivia in every position.
+pub fn lay_out(rng: &mut Rng, toks: &[String], layout: &Layout) -> String {
+    let mut s = String::new();
+    // leading trivia of the file
+    if rng.chance(1, 3) {
+        s.push_str(&gap(rng, layout, false, false));
+    }
+    for (i, t) in toks.iter().enumerate() {
+        if i > 0 {
+            let prev = &toks[i - 1];
+            let glued = lexically_glued(prev, t);
+            let mut g = if rng.chance(1, 3) && !glued {
+                String::new()
+            } else {
+                gap(rng, layout, glued, prev.ends_with('-'))
+            };
+            // a block comment directly followed by a token, or two tokens in direct contact:
+            // stay inside H3 unless this is a chosen F7-region case
+            let before = format!("{}{}", s, g);
+            if let (Some(x), Some(y)) = (before.chars().last(), t.chars().next()) {
+                if should_break_with_space(x, y) {
+                    let harmless = (x == ']' && y == ']') || (prev == ".." && g.is_empty());
+                    if !(harmless && (rng.below(1000) as u32) < layout.f7) {
+                        g.push(' ');
+                    }
+                }
+            }
+            s.push_str(&g);
+        }
+        s.push_str(t);
+    }
+    // trailing trivia of the file (possibly no final newline, possibly a comment at the very end)
+    match rng.below(6) {
+        0 => {}
+        1 => s.push_str(if layout.newline == "mixed" { "\r\n" } else { layout.newline }),
+        2 => {
+            s.push(' ');
+            s.push_str(&line_comment(rng));
+        }
+        3 => {
+            s.push_str(&gap(rng, layout, false, toks.last().map(|t| t.ends_with('-')).unwrap_or(false)));
+            s.push_str(&block_comment(rng, "\n"));
+        }
+        _ => s.push_str(&gap(rng, layout, false, toks.last().map(|t| t.ends_with('-')).unwrap_or(false))),
+    }
+    s
+}
+
+pub fn gen_source(rng: &mut Rng, typed: bool) -> (String, Vec<String>, u32) {
+    let mut g = ProgGen::new(rng.fork(), 30 + rng.below(120) as i32);
+    g.typed = typed;
+    let depth = 1 + rng.below(3) as u32;
+    g.block(depth, false, true);
+    let toks = std::mem::take(&mut g.toks);
+    let layout = Layout {
+        newline: *rng.pick(&["\n", "\n", "\r\n", "mixed"]),
+        comments: *rng.pick(&[0u32, 100, 250, 500]),
+        breaks: *rng.pick(&[100u32, 300, 600]),
+        f7: *rng.pick(&[0u32, 0, 0, 300]),
+    };
+    (lay_out(rng, &toks, &layout), toks, g.last_semicolons)
+}
+
+// ------------------------------------------------------------------------------------------
+// checks
+// ------------------------------------------------------------------------------------------
+
+const EMPTY_RULES: &str = "{rules: []}";
+
+#[derive(Debug, Clone, Copy, PartialEq, Eq)]
+pub struct TilingFlags {
+    pub all_tokens: bool,
+    pub cover: bool,
+    pub lines: bool,
+    pub comments: bool,
+    pub h3: bool,
+}
+
+pub fn model_tiling(model: &mut Model, src: &str, items: &[String]) -> Result<TilingFlags, String> {
+    let answer = model.ask(&format!("c03.tiling {} {}", hex(src.as_bytes()), items.join(" ")));
+    let p: Vec<&str> = answer.split(' ').collect();
+    if p.len() != 6 || p[0] != "ok" {
+        return Err(format!("model answered {:?}", answer));
+    }
+    Ok(TilingFlags {
+        all_tokens: p[1] == "1",
+        cover: p[2] == "1",
+        lines: p[3] == "1",
+        comments: p[4] == "1",
+        h3: p[5] == "1",
+    })
+}
+
+pub fn model_replay(model: &mut Model, items: &[String]) -> Result<ModelRun, String> {
+    parse_model_run(&model.ask(&format!("c03.replay {}", items.join(" "))))
+}
+
+/// Does this source break the oracle (output != input although inside H3 and a tiling)?
+/// Returns Some(description) when it does. Used by the search after a correspondence break.
+fn oracle_fails(model: &mut Model, code: &str) -> Option<String> {
+    let (out, trace) = real_process(code, EMPTY_RULES).ok()?;
+    if out == code {
+        return None;
+    }
+    let enc = encode_trace(&trace).ok()?;
+    let flags = model_tiling(model, code, &enc.items).ok()?;
+    if flags.h3 {
+        Some(format!("output {:?} differs from input {:?} (inside H3)", out, code))
+    } else {
+        None
+    }
+}
+
+/// One parsed source with the empty rule list: correspondence + tiling hypothesis + oracle.
+/// Returns false when the source did not parse.
+/// `last_semicolons` > 0: the source has a `;` after a last statement (finding F25 region, the
+/// identity oracle and the tiling hypothesis are not demanded there; the state machine
+/// correspondence still is).
+pub fn check_source(
+    report: &mut Acc,
+    model: &mut Model,
+    code: &str,
+    typed: bool,
+    last_semicolons: u32,
+    label: &str,
+) -> bool {
+    let (out, trace) = match real_process(code, EMPTY_RULES) {
+        Ok(x) => x,
+        Err(e) => {
+            if e == "panic" {
+                report.violation(Violation {
+                    kind: "oracle".into(),
+                    check: "no-panic".into(),
+                    what: "processing with an empty rule list panicked".into(),
+                    input: json!({"kind": "source", "code": code, "config": EMPTY_RULES}),
+                    failing_input_found: true,
+                });
+            }
+            report.hist("source", "unparsable");
+            if report.notes.is_empty() && code.len() < 120 {
+                report.notes.push(format!("unparsable: {:?}: {}", code, e));
+            }
+            return false;
+        }
+    };
+    let input = json!({"kind": "source", "code": code, "config": EMPTY_RULES, "typed": typed,
+        "last_semicolons": last_semicolons});
+    let enc = match encode_trace(&trace) {
+        Ok(e) => e,
+        Err(e) => {
+            report.violation(Violation {
+                kind: "correspondence".into(),
+                check: "trace-shape".into(),
+                what: format!("the writer trace is not well formed: {}", e),
+                input,
+                failing_input_found: false,
+            });
+            return true;
+        }
+    };
+    // (1) state machine correspondence
+    let m = match model_replay(model, &enc.items) {
+        Ok(m) => m,
+        Err(e) => {
+            report.violation(Violation {
+                kind: "correspondence".into(),
+                check: "model-replay".into(),
+                what: e,
+                input,
+                failing_input_found: false,
+            });
+            return true;
+        }
+    };
+    if let Some(diff) = compare_run(&out, &enc, &m) {
+        let found = out != code && oracle_fails(model, code).is_some();
+        report.violation(Violation {
+            kind: if found { "oracle".into() } else { "correspondence".into() },
+            check: "trace-replay(parsed)".into(),
+            what: diff,
+            input: input.clone(),
+            failing_input_found: found,
+        });
+    }
+    // (2) hypotheses + (3) oracle
+    let flags = match model_tiling(model, code, &enc.items) {
+        Ok(f) => f,
+        Err(e) => {
+            report.violation(Violation {
+                kind: "correspondence".into(),
+                check: "model-tiling".into(),
+                what: e,
+                input,
+                failing_input_found: false,
+            });
+            return true;
+        }
+    };
+    report.hist("H3", if flags.h3 { "inside" } else { "outside (F7 region)" });
+    let nontrivial = enc.trivia > 0 && enc.tokens > 3;
+    if last_semicolons > 0 {
+        // F25 region: `;` after return/break/continue (and its trivia) is not written
+        report.hist("source", if out == code { "F25 region: identical" } else { "F25 region: last semicolon dropped" });
+        report.case(if nontrivial { Some((label, code)) } else { None });
+        return true;
+    }
+    if typed {
+        // annotations may legitimately lose parentheses / spacing: compare modulo those bytes
+        let strip = |s: &str| -> String { s.chars().filter(|c| !c.is_whitespace() && *c != '(' && *c != ')').collect() };
+        if flags.h3 && strip(&out) != strip(code) {
+            report.violation(Violation {
+                kind: "oracle".into(),
+                check: "identity-typed(modulo spaces and parentheses)".into(),
+                what: format!("output {:?} differs from the input beyond spacing/parentheses", out),
+                input,
+                failing_input_found: true,
+            });
+        }
+        report.hist("source", if out == code { "typed identical" } else { "typed differs in spacing/parentheses" });
+        report.case(if nontrivial { Some((label, code)) } else { None });
+        return true;
+    }
+    let tiling = flags.all_tokens && flags.cover && flags.lines && flags.comments;
+    if !tiling {
+        report.violation(Violation {
+            kind: if out != code { "oracle".into() } else { "correspondence".into() },
+            check: "tiling-hypothesis (tests ast_converter + *_with_tokens writers)".into(),
+            what: format!(
+                "the tokens written for this source are not a tiling of it: all_tokens={} cover={} lines={} comments={}; output {}",
+                flags.all_tokens, flags.cover, flags.lines, flags.comments,
+                if out == code { "is still identical".to_owned() } else { format!("{:?}", out) }
+            ),
+            input: input.clone(),
+            failing_input_found: out != code,
+        });
+    }
+    if out != code {
+        if flags.h3 {
+            if tiling {
+                report.violation(Violation {
+                    kind: "oracle".into(),
+                    check: "identity".into(),
+                    what: format!("output {:?} differs from the input", out),
+                    input,
+                    failing_input_found: true,
+                });
+            }
+        } else {
+            // F7 region: the only admissible difference is inserted spaces
+            let strip = |s: &str| -> String { s.chars().filter(|c| *c != ' ').collect() };
+            if strip(&out) != strip(code) || m.spaces == 0 {
+                report.violation(Violation {
+                    kind: "oracle".into(),
+                    check: "identity(outside H3: more than inserted spaces)".into(),
+                    what: format!("output {:?} differs from the input by more than F7 spaces", out),
+                    input,
+                    failing_input_found: true,
+                });
+            }
+            report.hist("source", "F7 region: spaces inserted");
+        }
+    } else {
+        report.hist("source", "identical");
+    }
+    report.case(if nontrivial { Some((label, code)) } else { None });
+    true
+}
+
+pub fn check_soup(report: &mut Acc, model: &mut Model, soup: &[SoupToken]) {
+    let input = json!({"kind": "soup", "soup": soup_json(soup)});
+    let (out, trace) = match run_soup(soup) {
+        Ok(x) => x,
+        Err(_) => {
+            report.hist("soup", "generator panicked (empty symbol)");
+            return;
+        }
+    };
+    let result = encode_trace(&trace).and_then(|enc| {
+        let m = model_replay(model, &enc.items)?;
+        Ok((enc, m))
+    });
+    match result {
+        Err(e) => report.violation(Violation {
+            kind: "correspondence".into(),
+            check: "trace-replay(soup)".into(),
+            what: e,
+            input,
+            failing_input_found: false,
+        }),
+        Ok((enc, m)) => {
+            if let Some(diff) = compare_run(&out, &enc, &m) {
+                report.violation(Violation {
+                    kind: "correspondence".into(),
+                    check: "trace-replay(soup)".into(),
+                    what: diff,
+                    input,
+                    failing_input_found: false,
+                });
+            }
+            let bucket = format!(
+                "pads{} uncomments{} spaces{}",
+                if enc.pads > 0 { "+" } else { "0" },
+                if enc.uncomments > 0 { "+" } else { "0" },
+                if enc.spaces > 0 { "+" } else { "0" }
+            );
+            report.hist("soup", &bucket);
+            let nontrivial = enc.pads + enc.uncomments + enc.spaces > 0;
+            report.case(if nontrivial { Some(("soup", out)) } else { None });
+        }
+    }
+}
+
+/// `should_break_with_space` on every ASCII pair and a sample of non-ASCII characters.
+fn check_break_table(report: &mut Acc, model: &mut Model) {
+    let mut requests = Vec::new();
+    let mut expected = Vec::new();
+    for a in 0u32..128 {
+        for b in 0u32..128 {
+            requests.push(format!("c03.brk {} {}", a, b));
+            expected.push((a, b, should_break_with_space(char::from_u32(a).unwrap(), char::from_u32(b).unwrap())));
+        }
+    }
+    let answers = model.ask_batch(&requests);
+    for ((a, b, real), ans) in expected.iter().zip(answers.iter()) {
+        report.case(if *real { Some(("brk", *a, *b)) } else { None });
+        if (ans == "1") != *real {
+            report.violation(Violation {
+                kind: "correspondence".into(),
+                check: "should_break_with_space".into(),
+                what: format!("model {} real {} on ({:?}, {:?})", ans, real, char::from_u32(*a), char::from_u32(*b)),
+                input: json!({"kind": "brk", "a": a, "b": b}),
+                failing_input_found: false,
+            });
+        }
+    }
+    // non-ASCII characters never break; the model sees their last / first byte (>= 0x80)
+    for c in ['é', '日', '🎉', '\u{80}', '\u{7ff}'] {
+        for a in 0u32..128 {
+            let x = char::from_u32(a).unwrap();
+            if should_break_with_space(x, c) || should_break_with_space(c, x) {
+                report.violation(Violation {
+                    kind: "correspondence".into(),
+                    check: "should_break_with_space(non-ascii)".into(),
+                    what: format!("real code breaks between {:?} and {:?}; the byte model assumes it never does", x, c),
+                    input: json!({"kind": "brk", "a": a, "b": c as u32}),
+                    failing_input_found: false,
+                });
+            }
+        }
+    }
+    for b in 128u32..256 {
+        for a in [48u32, 65, 97, 95, 62, 45, 91, 93, 46] {
+            let r = model.ask_batch(&[format!("c03.brk {} {}", a, b), format!("c03.brk {} {}", b, a)]);
+            if r[0] != "0" || r[1] != "0" {
+                report.violation(Violation {
+                    kind: "correspondence".into(),
+                    check: "should_break_with_space(non-ascii)".into(),
+                    what: format!("model breaks on a byte >= 0x80: {} {}", a, b),
+                    input: json!({"kind": "brk", "a": a, "b": b}),
+                    failing_input_found: false,
+                });
+            }
+        }
+    }
+}
+
+/// `is_single_line_comment` is private: observe it through the generator (a comment trivia
+/// followed by a content gets an `uncomment` newline iff it was classified as a line comment).
+fn real_is_single_line_comment(text: &str) -> Option<bool> {
+    // `(` never triggers the space rule, whatever the comment ends with
+    let token = Token::from_content("(").with_leading_trivia(TriviaKind::Comment.with_content(text.to_owned()));
+    let block = Block::default().with_tokens(BlockTokens {
+        semicolons: vec![],
+        last_semicolon: None,
+        final_token: Some(token),
+    });
+    let result = std::panic::catch_unwind(std::panic::AssertUnwindSafe(|| {
+        let mut generator = TokenBasedLuaGenerator::new("");
+        generator.write_block(&block);
+        generator.into_string()
+    }));
+    let out = result.ok()?;
+    if out == format!("{}\n(", text) {
+        Some(true)
+    } else if out == format!("{}(", text) {
+        Some(false)
+    } else {
+        None
+    }
+}
+
+fn check_single_line_comment(report: &mut Acc, model: &mut Model, rng: &mut Rng) {
+    // exhaustive over an alphabet that reaches every branch, up to 6 characters after `--`
+    let alphabet = ['[', '=', 'a', 'é', ']'];
+    let mut texts: Vec<String> = vec!["".into(), "-".into(), "--".into(), "x".into()];
+    let mut frontier: Vec<String> = vec!["--".into()];
+    for _ in 0..6 {
+        let mut next = Vec::new();
+        for f in &frontier {
+            for c in alphabet {
+                let mut s = f.clone();
+                s.push(c);
+                next.push(s);
+            }
+        }
+        texts.extend(next.iter().cloned());
+        frontier = next;
+    }
+    for c in SOUP_COMMENTS {
+        texts.push((*c).to_owned());
+    }
+    for _ in 0..2000 {
+        let n = 3 + rng.below(10);
+        let mut s = String::from("--[");
+        for _ in 0..n {
+            s.push(*rng.pick(&['[', '=', '=', 'a', 'é', '日', '🎉', ']', ' ', '\n']));
+        }
+        texts.push(s);
+    }
+    let requests: Vec<String> = texts.iter().map(|t| format!("c03.slc {}", hex(t.as_bytes()))).collect();
+    let answers = model.ask_batch(&requests);
+    for (t, ans) in texts.iter().zip(answers.iter()) {
+        let real = real_is_single_line_comment(t);
+        report.case(if real == Some(false) { Some(("slc", t.clone())) } else { None });
+        report.hist("is_single_line_comment", match real { Some(true) => "line", Some(false) => "multi-line", None => "unobservable" });
+        if real != Some(ans == "1") {
+            report.violation(Violation {
+                kind: "correspondence".into(),
+                check: "is_single_line_comment".into(),
+                what: format!("model {} real {:?} on {:?}", ans, real, t),
+                input: json!({"kind": "slc", "text": t}),
+                failing_input_found: false,
+            });
+        }
+    }
+}
+
+fn replay_known_findings(report: &mut Report) {
+    for f in known_findings("C03") {
+        let id = f["id"].as_str().unwrap_or("?").to_owned();
+        let w = &f["witness"];
+        let (code, config) = match (w["code"].as_str(), w["config"].as_str()) {
+            (Some(c), Some(k)) => (c, k),
+            _ => continue,
+        };
+        let wrong = w["output_now"].as_str().unwrap_or("");
+        match real_process(code, config) {
+            Ok((out, _)) => {
+                if out == code {
+                    // repaired: say nothing
+                } else if out == wrong {
+                    report.known_finding(&id, &format!("{:?} is written as {:?}", code, out));
+                } else {
+                    report.violation(Violation {
+                        kind: "finding-changed".into(),
+                        check: "known-finding-replay".into(),
+                        what: format!("{}: {:?} now gives {:?}, recorded {:?}", id, code, out, wrong),
+                        input: json!({"kind": "source", "code": code, "config": config}),
+                        failing_input_found: true,
+                    });
+                }
+            }
+            Err(e) => report.violation(Violation {
+                kind: "finding-changed".into(),
+                check: "known-finding-replay".into(),
+                what: format!("{}: witness no longer processes: {}", id, e),
+                input: json!({"kind": "source", "code": code, "config": config}),
+                failing_input_found: true,
+            }),
+        }
+    }
+}
+
+/// Hand-written sources: every statement kind and literal spelling at least once.
+pub const FIXED_SOURCES: &[&str] = &[
+    "",
+    "\n",
+    "-- only a comment",
+    "--[[ only a block comment ]]",
+    "return",
+    "return 1",
+    "local a = 1 -- trailing\n--[[ block\n comment ]] local b = 2\n\n\nreturn a + b",
+    "local t = { 1, 2; 3, a = 1; [\"b\"] = 2, }\r\nprint(t)\r\n",
+    "f\"str\" g'str' h[[long]] k{1} m:n\"s\" m:n{ } m:n()",
+    "local function f(a, b, ...) return ... end\nfunction t.a.b:c() end\nfunction g() end",
+    "for i = 1, 10, 2 do break end for k, v in pairs(t) do continue end while true do end repeat until false",
+    "if a then elseif b then else end if a then return end",
+    "do local y; end local x ; x = 1 ; f();",
+    "a.b.c = 1; a[1][2] = 3; a.b[c].d:e().f = 4",
+    "x += 1 x -= 1 x *= 2 x /= 2 x //= 2 x %= 2 x ^= 2 s ..= 'a'",
+    "local n = 0x1F + 0b1010 + 1_000 + 1e10 + .5 + 5. + 1E+5 - 0xFFFFFFFFFFFFFFFF",
+    "local s = \"a\\z\n   b\" .. 'c\\'d' .. [==[e]]f]==] .. \"\\u{1F600}\\x41\\065\"",
+    "local v = if a then b elseif c then d else e",
+    "local i = `a{1}b{ {2} }c` .. `{x}` .. ``",
+    "local u = -x + #t - -y ^ -2 .. not z",
+    "return (f)(1)((2))",
+    "return function(...) local a, b = ... return a end",
+    "\tlocal a\t=\t1\t\n\t\treturn\ta",
+    "local a = 1 --[[x]] --[[y]] -- z\n -- w\nreturn a",
+    "return {\n\t-- c1\n\ta = 1, -- c2\n\t--[[ c3 ]] b = 2 ; -- c4\n}\n-- end",
+    "return t[ u[1] ], t[ [[s]] ], 1 .. 2, 1 .. .2",
+    "@native function f() end",
+    "goto_ = 1",
+];
+
+const TYPED_SOURCES: &[&str] = &[
+    "local a: number = 1\nlocal b : string? = nil\nreturn a :: any",
+    "type T = { x: number, y: string } | nil\nexport type U<V> = (V) -> V\nlocal function f<T>(a: T, ...: number): T return a end",
+    "local f: (number, string) -> ...any = g\ntype A = typeof(x) & { [string]: number }",
+    "type P = ( number )\nlocal x: ( string ) = ''\nfunction f(): ( number ) return 1 end",
+];
+
+fn ensure_dir(path: &str) {
+    let _ = std::fs::create_dir_all(path);
+}
+
+pub fn run(report: &mut Report, replay: Option<&str>) {
+    let mut model = Model::spawn();
+    report.rule = "token soups: random primitive sequences (tokens with/without line, by reference or by content, \
+        arbitrary trivia kinds/texts, symbols) written through the real TokenBasedLuaGenerator and replayed in the Lean model; \
+        sources: grammar-generated Lua/Luau programs laid out with random whitespace/comments/line breaks in every gap \
+        (LF/CRLF/mixed, tabs, `;`, table separators, call sugar, all literal spellings, with/without final newline) \
+        through darklua_core::process with an empty rule list. Non-trivial = a soup in which a pad/uncomment/space was inserted, \
+        a source with trivia and more than 3 tokens, a true cell of the space table, a comment classified multi-line."
+        .to_owned();
+
+    if let Some(path) = replay {
+        let text = std::fs::read_to_string(path).unwrap_or_default();
+        let v: Value = serde_json::from_str(&text).unwrap_or(Value::Null);
+        let input = &v["input"];
+        match input["kind"].as_str() {
+            Some("source") => {
+                let code = input["code"].as_str().unwrap_or("");
+                let mut acc = Acc::default();
+                check_source(
+                    &mut acc,
+                    &mut model,
+                    code,
+                    input["typed"].as_bool().unwrap_or(false),
+                    input["last_semicolons"].as_u64().unwrap_or(0) as u32,
+                    "replay",
+                );
+                acc.flush(report);
+            }
+            Some("soup") => {
+                if let Some(soup) = soup_from_json(&input["soup"]) {
+                    let mut acc = Acc::default();
+                    check_soup(&mut acc, &mut model, &soup);
+                    acc.flush(report);
+                }
+            }
+            _ => report.notes.push("replay: unknown input kind".to_owned()),
+        }
+        return;
+    }
+
+    if let Ok(code) = std::env::var("C03_PROBE") {
+        let cfg = std::env::var("C03_PROBE_CONFIG").unwrap_or_else(|_| EMPTY_RULES.to_owned());
+        match real_process(&code, &cfg) {
+            Ok((out, trace)) => {
+                eprintln!("OUT: {:?}", out);
+                for t in trace {
+                    eprintln!("  {:<14} {:?} {}", t.op, t.text, t.detail);
+                }
+            }
+            Err(e) => eprintln!("ERR: {}", e),
+        }
+        return;
+    }
+
+    // `fork` mixes the state: consecutive seeds must not share thread streams
+    let mut rng = Rng::new(report.seed).fork();
+    let thorough = report.is_thorough();
+
+    // corpus + known findings first
+    replay_known_findings(report);
+    let corpus_dir = concat!(env!("CARGO_MANIFEST_DIR"), "/../corpus/C03");
+    ensure_dir(corpus_dir);
+    if let Ok(entries) = std::fs::read_dir(corpus_dir) {
+        let mut paths: Vec<_> = entries.flatten().map(|e| e.path()).collect();
+        paths.sort();
+        for p in paths {
+            if p.extension().map(|e| e == "lua").unwrap_or(false) {
+                if let Ok(code) = std::fs::read_to_string(&p) {
+                    let mut acc = Acc::default();
+                    check_source(&mut acc, &mut model, &code, false, 0, "corpus");
+                    acc.flush(report);
+                    report.count("corpus_sources", 1);
+                }
+            }
+        }
+    }
+
+    let mut acc = Acc::default();
+    check_break_table(&mut acc, &mut model);
+    report.exhaustive.insert("should_break_with_space over all ASCII pairs".into(), true);
+    check_single_line_comment(&mut acc, &mut model, &mut rng);
+    report.exhaustive.insert("is_single_line_comment over {[,=,a,é,]}^≤6 after `--`".into(), true);
+
+    for code in FIXED_SOURCES {
+        if !check_source(&mut acc, &mut model, code, false, 0, "fixed") {
+            acc.notes.push(format!("fixed source does not parse: {:?}", code));
+        }
+    }
+    for code in TYPED_SOURCES {
+        if !check_source(&mut acc, &mut model, code, true, 0, "fixed-typed") {
+            acc.notes.push(format!("typed fixed source does not parse: {:?}", code));
+        }
+    }
+    acc.flush(report);
+
+    // random soups and sources on worker threads (one model process per thread)
+    let threads = 12usize;
+    let soups_per_thread = if thorough { 80_000 } else { 10_000 };
+    let sources_per_thread = if thorough { 16_000 } else { 2_000 };
+    let seeds: Vec<Rng> = (0..threads).map(|_| rng.fork()).collect();
+    let handles: Vec<_> = seeds
+        .into_iter()
+        .map(|mut rng| {
+            std::thread::spawn(move || {
+                let mut local = Acc::default();
+                let mut model = Model::spawn();
+                for _ in 0..soups_per_thread {
+                    let soup = gen_soup(&mut rng);
+                    check_soup(&mut local, &mut model, &soup);
+                }
+                for i in 0..sources_per_thread {
+                    let typed = i % 10 == 9;
+                    let (code, _, last_semicolons) = gen_source(&mut rng, typed);
+                    if check_source(&mut local, &mut model, &code, typed, last_semicolons, "generated") {
+                        if local.samples.len() < 1 && code.len() < 200 {
+                            local.sample(json!({"source": code}));
+                        }
+                    }
+                }
+                local
+            })
+        })
+        .collect();
+    for h in handles {
+        let local = h.join().expect("worker thread panicked");
+        local.flush(report);
+    }
+    report.notes.push(
+        "typed sources (10% of generated sources, 4 fixed) are compared modulo whitespace and parentheses only; \
+         the bytewise oracle covers untyped sources"
+            .to_owned(),
+    );
 }
